@@ -472,9 +472,52 @@ def desc_local(fn, l, depth=0):
     return ("?",)
 
 
-def dominating_guards(F, fn, b):
+def dominating_guards(F, fn, b, _depth=0):
     """[(switch_block, desc, outcome)] for every switch one of whose edges dominates b.
-    outcome: True/False for bool switches, variant name (or raw value) for discr switches."""
+    outcome: True/False for bool switches, variant name (or raw value) for discr switches.
+    A bool that was materialised (`matches!(x, P if g)`, `let ok = a && b`: the local is assigned
+    `true` in some blocks and `false` in others) stands for the guards common to every block that
+    assigns the value taken."""
+    out = _dominating_guards(F, fn, b)
+    if _depth >= 3:
+        return out
+    extra = []
+    for w in sorted(fn.dom.get(b, ())):
+        t = fn.blocks[w]["t"]
+        if t["k"] != "switch" or w == b or t["ty"] != "bool":
+            continue
+        l = op_local(t["on"])
+        if l is None:
+            continue
+        defs = fn.defs.get(l, [])
+        if len(defs) < 2 or not all(d[0] == "assign" and d[1]["k"] == "use" and d[1]["a"].get("const") and d[1]["a"].get("dbg") in ("true", "false") for d in defs):
+            continue
+        taken = None
+        for v, dst in t["targets"]:
+            if fn.edge_dominates(w, dst, b):
+                taken = (v != "0")
+        if taken is None and fn.edge_dominates(w, t["otherwise"], b):
+            taken = not any(v != "0" for v, _ in t["targets"]) if t["targets"] else True
+            # otherwise-edge of `switch [0 -> X]` is the true edge
+            taken = True if all(v == "0" for v, _ in t["targets"]) else taken
+        if taken is None:
+            continue
+        want = "true" if taken else "false"
+        blocks = [d[2] for d in defs if d[1]["a"].get("dbg") == want and d[2] in fn.reachable]
+        if not blocks:
+            continue
+        common = None
+        for blk in blocks:
+            gs = dominating_guards(F, fn, blk, _depth + 1)
+            keyed = {(g[0], repr(g[2])): g for g in gs}
+            common = keyed if common is None else {k: v for k, v in common.items() if k in keyed}
+        for g in (common or {}).values():
+            if not any(g[0] == o[0] and repr(g[2]) == repr(o[2]) for o in out + extra):
+                extra.append(g)
+    return out + extra
+
+
+def _dominating_guards(F, fn, b):
     out = []
     for w in sorted(fn.dom.get(b, ())):
         t = fn.blocks[w]["t"]
@@ -858,3 +901,69 @@ def raised_error_classes(F, fn, depth=0):
             if g is not None:
                 out |= raised_error_classes(F, g, depth + 1)
     return out
+
+
+def return_aliases(fn):
+    """locals whose whole value is moved/copied into the return place (_0) - after helper inlining a
+    value built in the helper reaches _0 through one such copy"""
+    out = {0}
+    changed = True
+    while changed:
+        changed = False
+        for bi, si, s in fn.stmts():
+            if s["d"]["l"] in out and not s["d"]["p"] and s["r"]["k"] == "use":
+                l = op_local(s["r"]["a"])
+                if l is not None and l not in out and l > fn.argc:
+                    out.add(l)
+                    changed = True
+    return out
+
+
+
+def option_chain_filtered(F, g, closure_ok):
+    """g returns an Option chain `base.[as_ref|map|copied..]*.filter(closure).[as_ref|map|copied..]*`:
+    at least one `filter` whose closure satisfies closure_ok(closure_fn, filter_call), and apart from
+    filters only payload projections - no combinator that can create a Some the filter did not pass
+    (or / or_else / xor / and / unwrap_or.. fail closed)."""
+    rets = [s for _, _, s in g.stmts() if s["d"]["l"] == 0 and not s["d"]["p"]]
+    if rets:
+        return False  # _0 assigned by statements: the guard form, decided by the caller
+    cur = None
+    for bi, t in g.calls():
+        if t["dest"]["l"] == 0 and not t["dest"]["p"]:
+            if cur is not None:
+                return False
+            cur = t
+    filtered = False
+    steps = 0
+    while cur is not None and steps < 12:
+        steps += 1
+        n = lastseg(cur.get("decl") or cur["f"])
+        if "core::option::Option" not in cur["f"]:
+            break
+        if n == "filter":
+            cl = [F.fn(p) for p in closure_args_of_call(g, cur)]
+            if len(cl) != 1 or cl[0] is None or not closure_ok(cl[0], cur):
+                return False
+            filtered = True
+        elif n not in ("map", "as_ref", "copied", "cloned", "as_deref"):
+            return False
+        r = g.root_of(cur["args"][0]) if cur["args"] else ("unknown",)
+        cur = r[1] if r[0] == "call" else None
+    return filtered
+
+
+def closure_returns_call(c, name, mention=None):
+    """closure c's return value is the (un-negated) result of its single call named `name`
+    (whose receiver description mentions `mention`)"""
+    cs = [(bi, t) for bi, t in c.calls() if lastseg(t.get("decl") or t["f"]) == name]
+    if len(cs) != 1:
+        return False
+    bi, t = cs[0]
+    dl = t["dest"]["l"]
+    ret_ok = (dl == 0 and not t["dest"]["p"]) or any(s["d"]["l"] == 0 and not s["d"]["p"] and s["r"]["k"] == "use" and op_local(s["r"]["a"]) == dl for _, _, s in c.stmts())
+    if not ret_ok or any(s["r"]["k"] == "un" and s["r"]["op"] == "Not" for _, _, s in c.stmts()):
+        return False
+    if any(b["t"]["k"] == "switch" for i, b in enumerate(c.blocks) if i in c.reachable):
+        return False
+    return mention is None or (t["args"] and mention in str(desc_operand(c, t["args"][0])))
